@@ -224,6 +224,7 @@ where
     let mut cx = Context::from_waker(&wk);
     let avail = w.blen > 0 || w.snq > 0;
     let oldest_sender = if w.snq > 0 { w.sorder[w.snq - 1] } else { 2 };
+    let rq0 = lv::view(&w.ch.inner.lock().receive_waiters);
     kit::arm();
     let r = unsafe { core::pin::Pin::new_unchecked(&mut *w.rf[i]) }.poll(&mut cx);
     let term = w.rf[i].is_terminated();
@@ -253,6 +254,9 @@ where
             let t = w.rf[i].wait_node.task.as_ref();
             assert!(t.is_some() && t.unwrap().will_wake(&wk), "[C10] a pending receiver is registered with the waker of its latest poll");
             assert!(woken_exactly(&[]), "[C10] nobody is woken");
+            if rst[i] == 1 {
+                assert!(lv::same(rq0, lv::view(&w.ch.inner.lock().receive_waiters)), "[C10] re-polling a waiting receiver (with whatever waker) does not change its place among the receivers: the longest-waiting one is served first");
+            }
             assert!(blen(&w) == w.blen, "[C08] a pending receive takes nothing");
         }
     }
@@ -304,6 +308,7 @@ where
     let mut cx = Context::from_waker(&wk);
     let oldest_recv = if w.rnq > 0 { w.rorder[w.rnq - 1] } else { 2 };
     let room = w.blen < C;
+    let sq0 = lv::view(&w.ch.inner.lock().send_waiters);
     kit::arm();
     let r = unsafe { core::pin::Pin::new_unchecked(&mut *w.sf[i]) }.poll(&mut cx);
     let term = w.sf[i].is_terminated();
@@ -328,6 +333,10 @@ where
             assert!(sst[i] == 1 || (sst[i] == 0 && !w.closed && !room), "[C09] a sender parks only while the channel is open and full");
             let t = w.sf[i].wait_node.task.as_ref();
             assert!(t.is_some() && t.unwrap().will_wake(&wk), "[C10] a pending sender is registered with the waker of its latest poll");
+            if sst[i] == 1 {
+                // (found by seeded change C09_r71: a re-poll with another waker re-queued the sender as the youngest)
+                assert!(lv::same(sq0, lv::view(&w.ch.inner.lock().send_waiters)), "[C09] re-polling a parked sender (with whatever waker) does not change its place among the senders: values are received in the order of the FIRST polls");
+            }
             assert!(w.sf[i].wait_node.value == Some(w.sval[i]), "[C08] a parked sender keeps its value");
             assert!(blen(&w) == w.blen, "[C09] the buffer never exceeds its capacity");
         }
